@@ -8,8 +8,10 @@ The split model follows the REPAIRED code (fixes/C19-split-no-check-valve.patch:
 valve; fixes/C19-split-at-zero-with-vertices.patch: `junction_coordinates` defaults to the start node's
 coordinates); the pinned behaviour is kept in Props/C19.lean next to its counterexamples.
 
-Quirks of the code that are mirrored: the new pipe's `initial_status` is the original's CURRENT `status`
-property (not its `initial_status`); `minor_loss` is copied to both parts; a vertex equal to the start node's
+fixes/C19-split-neutral-new-pipe.patch: the new pipe is OPEN and has minor loss 0 (`splitCopying` is the code before
+that patch: `minor_loss` copied to both parts, `initial_status` := the original's CURRENT `status` property).
+
+Quirks of the code that are mirrored: a vertex equal to the start node's
 coordinates is dropped; a pipe between two reservoirs raises AttributeError (`Reservoir` has no `elevation`);
 a merged pipe of the skeletonizer has no check valve and no vertices and runs from `neighbors[0]` to `neighbors[1]`.
 -/
@@ -112,7 +114,7 @@ def geometry (s e : Node) (verts : List Pt) (segLens : List Rat) (f : Rat) (init
 def newJunction (name : String) (elev : Rat) (xy : Pt) : Node := { name := name, kind := .junction, elev := elev, xy := xy }
 
 /-- `_split_or_break_pipe` with `junction_coordinates` initialised to `init pipe-start` (see `geometry`) -/
-def splitCore (initStart : Bool) (newCv : Pipe → Bool) (net : Net) (pipeName newPipe : String) (newJ : List String)
+def splitCore (initStart : Bool) (newCv : Pipe → Bool) (newMinor : Pipe → Rat) (newStatus : Pipe → Nat) (net : Net) (pipeName newPipe : String) (newJ : List String)
     (atEnd : Bool) (f : Rat) (segLens : List Rat) (isBreak : Bool) : Except Err Net :=
   match net.pipe? pipeName with
   | none => .error .notAPipe
@@ -135,16 +137,21 @@ def splitCore (initStart : Bool) (newCv : Pipe → Bool) (net : Net) (pipeName n
           let (old, new) : Pipe × Pipe :=
             if atEnd then
               ({ pipe with b := j0, length := pipe.length * f, verts := fv },
-               { pipe with name := newPipe, a := j1, b := e.name, length := pipe.length * (1 - f), initStatus := pipe.status, cv := newCv pipe, verts := lv })
+               { pipe with name := newPipe, a := j1, b := e.name, length := pipe.length * (1 - f), minor := newMinor pipe,
+                             initStatus := newStatus pipe, status := newStatus pipe, cv := newCv pipe, verts := lv })
             else
               ({ pipe with a := j0, length := pipe.length * (1 - f), verts := lv },
-               { pipe with name := newPipe, a := s.name, b := j1, length := pipe.length * f, initStatus := pipe.status, cv := newCv pipe, verts := fv })
+               { pipe with name := newPipe, a := s.name, b := j1, length := pipe.length * f, minor := newMinor pipe,
+                             initStatus := newStatus pipe, status := newStatus pipe, cv := newCv pipe, verts := fv })
           .ok { net with nodes := nodes,
                          pipes := (net.pipes.map fun p => if p.name == pipeName then old else p) ++ [new] }
       | _, _ => .error .notAPipe
 
-/-- the repaired `_split_or_break_pipe` -/
-def splitOrBreak := splitCore true (fun _ => false)
+/-- the repaired `_split_or_break_pipe`: the new pipe has no check valve, no minor loss and is open (LinkStatus.Open = 1) -/
+def splitOrBreak := splitCore true (fun _ => false) (fun _ => 0) (fun _ => 1)
+
+/-- `_split_or_break_pipe` at /repo HEAD before fixes/C19-split-neutral-new-pipe.patch: minor loss and CURRENT status copied -/
+def splitCopying := splitCore true (fun _ => false) (fun p => p.minor) (fun p => p.status)
 
 /-! ### skeletonization -/
 
